@@ -1,7 +1,10 @@
 #!/usr/bin/env python3
 # Probe: C05/C16 rule.rs calendar helpers, real text
 import sys, re
-sys.path.insert(0, '/tmp/vprobe')
+import os
+HERE = os.path.dirname(os.path.abspath(__file__))
+OUT = os.environ.get('PROBE_OUT', '/var/tmp')
+sys.path.insert(0, HERE)
 from xprobe import *
 R = Src('/repo/src/offset/local/tz_info/rule.rs')
 MOD = Src('/repo/src/offset/local/tz_info/mod.rs')
@@ -44,5 +47,5 @@ body = re.sub(r'(\w+) %= ([^;]+);', r'\1 = \1 % \2;', body)
 f3 = emit_fn(sig, body,
     ensures="""r is Ok ==> ({ let t = r->Ok_0; 1 <= t.month <= 12 && 1 <= t.month_day <= month_len(t.year as int, t.month as int) && t.hour < 24 && t.minute < 60 && t.second < 60
                  && epoch_day(t.year as int, t.month as int, t.month_day as int) * 86400 + t.hour as int * 3600 + t.minute as int * 60 + t.second as int == unix_time as int })""")
-open('/tmp/vprobe/rule_unit.rs','w').write(PRE + consts + '\n' + f1 + f2 + 'impl UtcDateTime {\n' + f3 + '}\n} // verus!\nfn main() {}\n')
+open(os.path.join(OUT, 'rule_unit.rs'), 'w').write(PRE + consts + '\n' + f1 + f2 + 'impl UtcDateTime {\n' + f3 + '}\n} // verus!\nfn main() {}\n')
 print('ok')
